@@ -673,6 +673,80 @@ Proof.
     unfold pending in E. rewrite Hi in E. discriminate.
 Qed.
 
+(* an instance that has not got as far as spawning its acceptors has not taken any connection *)
+Definition fresh_ok (s : state) (i : nat) : Prop :=
+  match rst s with RLoad n | RListen n _ => i <> n | _ => True end.
+
+Definition Fresh (s : state) : Prop :=
+  forall k c i, nth_error (conns s) k = Some c -> accepted_by (cst c) = Some i -> fresh_ok s i.
+
+Lemma fresh_step s l s' : Inv s -> Fresh s -> step s l = Some s' -> Fresh s'.
+Proof.
+  intros Hinv HF H.
+  assert (Hsame : forall s1, rst s1 = rst s -> conns s1 = conns s -> Fresh s1).
+  { intros s1 E1 E2 k c i Hk Hi. unfold fresh_ok. rewrite E1. rewrite E2 in Hk. exact (HF k c i Hk Hi). }
+  assert (Hupd : forall s1 k0 c0 x, rst s1 = rst s -> nth_error (conns s) k0 = Some c0 ->
+            conns s1 = set_nth (conns s) k0 (set_st c0 x) ->
+            (forall i, accepted_by x = Some i -> fresh_ok s i) -> Fresh s1).
+  { intros s1 k0 c0 x E1 Hk0 E2 Hx k c i Hk Hi. unfold fresh_ok. rewrite E1.
+    rewrite E2 in Hk. eapply conn_upd_inv in Hk as [(Ek & Ec)|(Hne & Hk)]; [| |exact Hk0|reflexivity].
+    - subst c. simpl in Hi. apply Hx. exact Hi.
+    - exact (HF k c i Hk Hi). }
+  destruct l; unfold step in H; dmatch H; try (injection H as <-).
+  - (* LCall *)
+    intros k c i Hk Hi. unfold fresh_ok. simpl. simpl in Hk.
+    destruct (i_conn _ Hinv k c Hk) as (_ & H2 & _). destruct (H2 i Hi) as (_ & Hlt & _). lia.
+  - intros k c i Hk Hi. exact I.
+  - (* LLoadOk *)
+    intros k c i Hk Hi. simpl in Hk. unfold fresh_ok. simpl. specialize (HF k c i Hk Hi). unfold fresh_ok in HF. rewrite E in HF. exact HF.
+  - intros k c i Hk Hi. simpl in Hk. unfold fresh_ok. simpl. specialize (HF k c i Hk Hi). unfold fresh_ok in HF. rewrite E in HF. exact HF.
+  - intros k c i Hk Hi. simpl in Hk. unfold fresh_ok. simpl. specialize (HF k c i Hk Hi). unfold fresh_ok in HF. rewrite E in HF. exact HF.
+  - intros k c i Hk Hi. exact I.
+  - intros k c i Hk Hi. exact I.
+  - intros k c i Hk Hi. exact I.
+  - intros k c i Hk Hi. exact I.
+  - (* LStop *)
+    intros k c i Hk Hi. unfold fresh_ok.
+    destruct (isnil (rem (cur s) (fdh s n0))); simpl; exact I.
+  - intros k c i Hk Hi. exact I.
+  - (* LNew *)
+    intros k c i Hk Hi. simpl in Hk. unfold fresh_ok. simpl.
+    apply nth_error_app_last in Hk as [Hk|(-> & ->)]; [exact (HF k c i Hk Hi) | discriminate].
+  - (* LConnect *)
+    eapply Hupd; [reflexivity | exact E | reflexivity |].
+    intros i Hi. destruct (isnil (fdh s (caddr c))); discriminate.
+  - (* LAccept *)
+    eapply Hupd; [reflexivity | exact E | reflexivity |].
+    intros j Hj. injection Hj as <-. apply mem_In in E1.
+    destruct (i_acc _ Hinv _ _ E1) as (_ & _ & Hw).
+    assert (Hph := i_phase _ Hinv). unfold fresh_ok, is_new, phase_inv, new_ok in *.
+    destruct (rst s); try exact I.
+    + destruct Hw as [[-> _]|[]]. destruct Hph as (_ & Hlt). lia.
+    + destruct Hw as [[-> _]|[]]. destruct Hph as ((_ & Hlt) & _). lia.
+  - (* LAnswer *)
+    eapply Hupd; [reflexivity | exact E | reflexivity |].
+    intros j Hj. apply (HF k c j E). rewrite E0. exact Hj.
+  - (* LRecv timeout *)
+    eapply Hupd; [reflexivity | exact E | reflexivity |]. intros; discriminate.
+  - eapply Hupd; [reflexivity | exact E | reflexivity |]. intros; discriminate.
+  - eapply Hupd; [reflexivity | exact E | reflexivity |]. intros; discriminate.
+  - eapply Hupd; [reflexivity | exact E | reflexivity |].
+    intros j Hj. apply (HF k c j E). rewrite E0. exact Hj.
+  - (* LObs *)
+    apply Hsame; reflexivity.
+Qed.
+
+Lemma fresh_reachable s : reachable s -> Fresh s.
+Proof.
+  intros (a0 & b & ls & Hnd & Hr).
+  assert (H0 : Fresh (init a0 b)) by (intros k c i Hk; destruct k; discriminate).
+  assert (Hi0 := inv_init a0 b Hnd).
+  revert Hr H0 Hi0. generalize (init a0 b). induction ls as [|l r IH]; simpl; intros s0 Hr H0 Hi0.
+  - injection Hr as <-. exact H0.
+  - destruct (step s0 l) as [s1|] eqn:E; [|discriminate].
+    apply (IH s1 Hr); [eapply fresh_step; eauto | eapply inv_step; eauto].
+Qed.
+
 (* ---------------------------------------------------------------------------------- *)
 (* Every observable history of the model satisfies the executable specification.       *)
 
@@ -684,6 +758,10 @@ Definition Rq (cu : nat) (pn : option nat) (ad : nat -> list nat) (c : conn) (q 
      (q_must q = true ->
         In (caddr c) (ad cu) /\ (forall n, pn = Some n -> In (caddr c) (ad n)) /\ lost (cst c) = false)).
 
+(* the new instance has got as far as spawning acceptors *)
+Definition spawning (s : state) : Prop :=
+  match rst s with RSpawn _ _ | RStop _ _ => True | _ => False end.
+
 Record Rel (s : state) (p : sp) : Prop := {
   r_ok : sp_ok p = true;
   r_cur : sp_cur p = cur s;
@@ -692,7 +770,8 @@ Record Rel (s : state) (p : sp) : Prop := {
   r_pend : sp_pend p = match pending s with Some n => Some (addrs_of s n, fate_of s n) | None => None end;
   r_reqs : Forall2 (Rq (cur s) (pending s) (addrs_of s)) (conns s) (sp_reqs p);
   r_base : forall a b, In (a, b) (sp_base p) ->
-             sid s a = b /\ In a (addrs_of s (cur s)) /\ (forall n, pending s = Some n -> In a (addrs_of s n))
+             sid s a = b /\ In a (addrs_of s (cur s)) /\ (forall n, pending s = Some n -> In a (addrs_of s n));
+  r_used : sp_used p = true -> spawning s
 }.
 
 Lemma lookup_In a l b : lookup a l = Some b -> In (a, b) l.
@@ -732,6 +811,14 @@ Lemma Forall2_impl2 {A B} (R R' : A -> B -> Prop) l1 l2 :
   (forall x y, R x y -> R' x y) -> Forall2 R l1 l2 -> Forall2 R' l1 l2.
 Proof. intros Hi H. induction H; constructor; auto. Qed.
 
+Lemma Forall2_impl_In {A B} (R R' : A -> B -> Prop) l1 l2 :
+  (forall x y, In x l1 -> R x y -> R' x y) -> Forall2 R l1 l2 -> Forall2 R' l1 l2.
+Proof.
+  intros Hi H. induction H; constructor.
+  - apply Hi; [left; reflexivity | assumption].
+  - apply IHForall2. intros x0 y0 Hx. apply Hi. right. exact Hx.
+Qed.
+
 Lemma Forall2_map_r {A B C} (R : A -> C -> Prop) (f : B -> C) l1 l2 :
   Forall2 (fun x y => R x (f y)) l1 l2 -> Forall2 R l1 (map f l2).
 Proof. intros H. induction H; simpl; constructor; auto. Qed.
@@ -766,9 +853,10 @@ Proof. unfold scan. simpl. rewrite fold_left_app. reflexivity. Qed.
 Lemma rel_same s s' p :
   Rel s p -> cur s' = cur s -> cfgs s' = cfgs s -> pending s' = pending s -> conns s' = conns s ->
   (forall a, sid s' a <> sid s a -> ~ In a (addrs_of s (cur s))) ->
+  (spawning s -> spawning s') ->
   Rel s' p.
 Proof.
-  intros [Hok Hc Ha Hcl Hp Hr Hb] E1 E2 E3 E4 Hsid.
+  intros [Hok Hc Ha Hcl Hp Hr Hb Hu] E1 E2 E3 E4 Hsid Hsp.
   constructor; unfold addrs_of, fate_of in *; rewrite ?E1, ?E2, ?E3, ?E4; auto.
   intros a b Hin. destruct (Hb a b Hin) as (X1 & X2 & X3). split; [|auto].
   destruct (Nat.eq_dec (sid s' a) (sid s a)) as [E|E]; [congruence|]. exfalso. exact (Hsid a E X2).
@@ -780,8 +868,9 @@ Proof.
   intros Hr HR H.
   assert (Hr' := reachable_step _ _ _ Hr H).
   assert (Hinv := inv_reachable _ Hr). assert (Hinv' := inv_reachable _ Hr').
+  assert (Hfresh := fresh_reachable _ Hr).
   set (p := scan a0 (hist s)) in *.
-  destruct HR as [Hok Hc Ha Hcl Hp Hrq Hb].
+  destruct HR as [Hok Hc Ha Hcl Hp Hrq Hb Hu].
   destruct l; unfold step in H.
   - (* LCall *)
     dmatch H. injection H as <-. simpl hist. rewrite scan_cons. fold p.
@@ -810,26 +899,37 @@ Proof.
       destruct (Hb a b Hin) as (X1 & X2 & X3). split; [exact X1|].
       split; [rewrite Hadd by exact Hcur; exact X2|].
       intros n Hn. injection Hn as <-. rewrite nth_app_eq. simpl. apply mem_In. exact Hm.
+    + discriminate.
   - (* LLoadFail *)
     dmatch H. injection H as <-. simpl hist. rewrite scan_cons. fold p.
     assert (Epn : pending s = Some n) by (unfold pending; rewrite E; reflexivity).
     rewrite Epn in *. apply Nat.eqb_eq in E0.
     unfold spec_step. rewrite Hp, E0. simpl.
+    assert (Hnu : sp_used p = false).
+    { destruct (sp_used p) eqn:Eu; [|reflexivity]. exfalso. specialize (Hu eq_refl). unfold spawning in Hu. rewrite E in Hu. exact Hu. }
+    destruct (pending_new_ok s n Hinv Epn) as (Hn1 & Hn2). assert (Hcalls : sp_calls p = n) by lia.
+    rewrite Hnu, Hcalls.
     constructor; simpl; unfold pending; simpl; auto.
-    + eapply Forall2_impl2; [|exact Hrq]. intros c q (Q1 & Q2 & Q3 & Q4). unfold Rq.
+    + rewrite Hok. reflexivity.
+    + apply Forall2_map_r. eapply Forall2_impl_In; [|exact Hrq]. intros c q Hin (Q1 & Q2 & Q3 & Q4). unfold Rq. simpl.
       repeat (split; [assumption|]). intros Ho. destruct (Q4 Ho) as (A1 & A2 & A3 & A4).
-      split; [exact A1|]. split; [intros; discriminate|]. split; [exact A3|].
-      intros Hm. destruct (A4 Hm) as (B1 & B2 & B3). split; [exact B1|]. split; [intros; discriminate | exact B3].
+      split; [apply rem_In; split; [exact A1 | lia]|]. split; [intros; discriminate|].
+      split.
+      * intros i Hi. apply rem_In. split; [apply A3; exact Hi|].
+        apply In_nth_error in Hin as (k & Hk). specialize (Hfresh k c i Hk Hi). unfold fresh_ok in Hfresh.
+        rewrite E in Hfresh. exact Hfresh.
+      * intros Hm. destruct (A4 Hm) as (B1 & B2 & B3). split; [exact B1|]. split; [intros; discriminate | exact B3].
     + intros a b Hin. destruct (Hb a b Hin) as (X1 & X2 & X3). split; [exact X1|]. split; [exact X2|]. intros; discriminate.
+    + discriminate.
   - (* LLoadOk *)
     dmatch H. injection H as <-. simpl hist. fold p.
-    apply (rel_same s); try reflexivity; [constructor; assumption | unfold pending; simpl; rewrite E; reflexivity | intros a Hx; simpl in Hx; congruence].
+    apply (rel_same s); try reflexivity; first [constructor; assumption | (unfold pending; simpl; rewrite E; reflexivity) | (intros a Hx; simpl in Hx; congruence) | (unfold spawning; simpl; rewrite E; tauto)].
   - (* LDup *)
     dmatch H. injection H as <-. simpl hist. fold p.
-    apply (rel_same s); try reflexivity; [constructor; assumption | unfold pending; simpl; rewrite E; reflexivity | intros a Hx; simpl in Hx; congruence].
+    apply (rel_same s); try reflexivity; first [constructor; assumption | (unfold pending; simpl; rewrite E; reflexivity) | (intros a Hx; simpl in Hx; congruence) | (unfold spawning; simpl; rewrite E; tauto)].
   - (* LBind *)
     dmatch H. injection H as <-. simpl hist. fold p.
-    apply (rel_same s); try reflexivity; [constructor; assumption | unfold pending; simpl; rewrite E; reflexivity |].
+    apply (rel_same s); try reflexivity; [constructor; assumption | unfold pending; simpl; rewrite E; reflexivity | | unfold spawning; simpl; rewrite E; tauto].
     intros a Hx. simpl in Hx. apply andb_true_iff in E1 as (E1 & _). apply andb_true_iff in E1 as (Enm & _).
     destruct (Nat.eq_dec a n0) as [->|Hd]; [|rewrite upd_other in Hx by exact Hd; congruence].
     apply Bool.negb_true_iff in Enm. apply mem_false. exact Enm.
@@ -838,18 +938,28 @@ Proof.
     assert (Epn : pending s = Some n) by (unfold pending; rewrite E; reflexivity).
     rewrite Epn in *. apply andb_true_iff in E1 as (_ & E1). apply Nat.eqb_eq in E1.
     unfold spec_step. rewrite Hp, E1. simpl.
+    assert (Hnu : sp_used p = false).
+    { destruct (sp_used p) eqn:Eu; [|reflexivity]. exfalso. specialize (Hu eq_refl). unfold spawning in Hu. rewrite E in Hu. exact Hu. }
+    destruct (pending_new_ok s n Hinv Epn) as (Hn1 & Hn2). assert (Hcalls : sp_calls p = n) by lia.
+    rewrite Hnu, Hcalls.
     constructor; simpl; unfold pending; simpl; auto.
-    + eapply Forall2_impl2; [|exact Hrq]. intros c q (Q1 & Q2 & Q3 & Q4). unfold Rq.
+    + rewrite Hok. reflexivity.
+    + apply Forall2_map_r. eapply Forall2_impl_In; [|exact Hrq]. intros c q Hin (Q1 & Q2 & Q3 & Q4). unfold Rq. simpl.
       repeat (split; [assumption|]). intros Ho. destruct (Q4 Ho) as (A1 & A2 & A3 & A4).
-      split; [exact A1|]. split; [intros; discriminate|]. split; [exact A3|].
-      intros Hm. destruct (A4 Hm) as (B1 & B2 & B3). split; [exact B1|]. split; [intros; discriminate | exact B3].
+      split; [apply rem_In; split; [exact A1 | lia]|]. split; [intros; discriminate|].
+      split.
+      * intros i Hi. apply rem_In. split; [apply A3; exact Hi|].
+        apply In_nth_error in Hin as (k & Hk). specialize (Hfresh k c i Hk Hi). unfold fresh_ok in Hfresh.
+        rewrite E in Hfresh. exact Hfresh.
+      * intros Hm. destruct (A4 Hm) as (B1 & B2 & B3). split; [exact B1|]. split; [intros; discriminate | exact B3].
     + intros a b Hin. destruct (Hb a b Hin) as (X1 & X2 & X3). split; [exact X1|]. split; [exact X2|]. intros; discriminate.
+    + discriminate.
   - (* LAdv *)
     dmatch H; injection H as <-; simpl hist; fold p;
-    (apply (rel_same s); try reflexivity; [constructor; assumption | unfold pending; simpl; rewrite E; reflexivity | intros a Hx; simpl in Hx; congruence]).
+    (apply (rel_same s); try reflexivity; first [constructor; assumption | (unfold pending; simpl; rewrite E; reflexivity) | (intros a Hx; simpl in Hx; congruence) | (unfold spawning; simpl; rewrite E; tauto)]).
   - (* LSpawn *)
     dmatch H. injection H as <-. simpl hist. fold p.
-    apply (rel_same s); try reflexivity; [constructor; assumption | unfold pending; simpl; rewrite E; reflexivity | intros a Hx; simpl in Hx; congruence].
+    apply (rel_same s); try reflexivity; first [constructor; assumption | (unfold pending; simpl; rewrite E; reflexivity) | (intros a Hx; simpl in Hx; congruence) | (unfold spawning; simpl; rewrite E; tauto)].
   - (* LStop *)
     dmatch H. injection H as <-. rename n0 into a1.
     assert (Epn : pending s = Some n) by (unfold pending; rewrite E; reflexivity).
@@ -857,7 +967,7 @@ Proof.
     destruct (isnil f) eqn:Enil.
     + (* the socket at a1 is closed: queued connections there are reset *)
       simpl hist. fold p. simpl in Hr', Hinv'.
-      constructor; simpl; unfold pending; simpl; try assumption; [rewrite Hp, Epn; reflexivity | | rewrite Epn in Hb; exact Hb].
+      constructor; simpl; unfold pending; simpl; try assumption; [rewrite Hp, Epn; reflexivity | | rewrite Epn in Hb; exact Hb | intros Hx; specialize (Hu Hx); unfold spawning in *; simpl; rewrite E in Hu; exact Hu].
       unfold reset_queued. apply Forall2_map_l. eapply Forall2_impl2; [|exact Hrq].
       intros c q HQ. rewrite Epn in HQ. destruct HQ as (Q1 & Q2 & Q3 & Q4).
       destruct (cst c) eqn:Ec; try (unfold Rq; rewrite Ec; auto; fail).
@@ -873,7 +983,7 @@ Proof.
       assert (Hin : In n f) by (unfold f; apply rem_In; split; [exact Hfd | lia]).
       apply isnil_true in Enil. rewrite Enil in Hin. contradiction.
     + simpl hist. fold p.
-      apply (rel_same s); try reflexivity; [constructor; assumption | unfold pending; simpl; rewrite E; reflexivity | intros a Hx; simpl in Hx; congruence].
+      apply (rel_same s); try reflexivity; first [constructor; assumption | (unfold pending; simpl; rewrite E; reflexivity) | (intros a Hx; simpl in Hx; congruence) | (unfold spawning; simpl; rewrite E; tauto)].
   - (* LReturn *)
     dmatch H. injection H as <-. simpl hist. rewrite scan_cons. fold p.
     assert (Epn : pending s = Some n) by (unfold pending; rewrite E; reflexivity).
@@ -889,6 +999,7 @@ Proof.
       split; [apply A2; reflexivity|]. split; [intros; discriminate|]. split; [exact A3|].
       intros Hm. destruct (A4 Hm) as (B1 & B2 & B3). split; [apply B2; reflexivity|]. split; [intros; discriminate | exact B3].
     + intros a b Hin. destruct (Hb a b Hin) as (X1 & X2 & X3). split; [exact X1|]. split; [apply X3; reflexivity|]. intros; discriminate.
+    + discriminate.
   - (* LNew *)
     injection H as <-. simpl hist. rewrite scan_cons. fold p.
     assert (Hlen : length (sp_reqs p) = length (conns s)) by (symmetry; eapply Forall2_len; exact Hrq).
@@ -937,39 +1048,51 @@ Proof.
   - (* LRecv *)
     destruct (nth_error (conns s) k) as [c|] eqn:E; [|discriminate].
     destruct (Forall2_nth _ _ _ _ _ Hrq E) as (q & Hq & Q1 & Q2 & Q3 & Q4).
-    assert (Hclose : forall x r good, finished x = true -> good = true ->
+    assert (Hclose : forall x r good u, finished x = true -> good = true ->
+              (u = true -> spawning s) ->
               Rel (with_hist (with_conns s (set_nth (conns s) k (set_st c x))) (EEnd k r))
                   {| sp_ok := sp_ok p && good; sp_cur := sp_cur p; sp_addrs := sp_addrs p; sp_calls := sp_calls p;
                      sp_pend := sp_pend p;
                      sp_reqs := set_nth (sp_reqs p) k
                                   {| q_addr := q_addr q; q_site := q_site q; q_open := false;
                                      q_allow := q_allow q; q_must := q_must q |};
-                     sp_base := sp_base p |}).
-    { intros x r good Hfin ->. constructor; simpl; unfold pending; simpl; try assumption.
+                     sp_base := sp_base p; sp_used := u |}).
+    { intros x r good u Hfin -> Hu'. constructor; simpl; unfold pending; simpl; try assumption.
       - rewrite Hok. reflexivity.
       - apply Forall2_set_nth; [exact Hrq|]. unfold Rq. simpl. rewrite Hfin. simpl.
         repeat (split; [assumption|]). split; [reflexivity|]. intros; discriminate. }
+    assert (Hnone : sp_used p || match sp_pend p with Some _ => false | None => false end = true -> spawning s).
+    { intros Hx. apply Hu. destruct (sp_pend p); rewrite Bool.orb_false_r in Hx; exact Hx. }
     destruct (cst c) eqn:Ec; try discriminate.
     + (* timeout of a queued connection: only when nobody accepts there *)
       destruct (isnil (acc s (caddr c))) eqn:En; [|discriminate]. injection H as <-.
       simpl hist. rewrite scan_cons. fold p. unfold spec_step. rewrite Hq.
-      apply Hclose; [reflexivity|]. try rewrite Ec in Q3; try rewrite Ec in Q4. simpl in Q3. rewrite Q3. simpl.
+      apply Hclose; [reflexivity| |exact Hnone]. try rewrite Ec in Q3; try rewrite Ec in Q4. simpl in Q3. rewrite Q3. simpl.
       destruct (q_must q) eqn:Em; [|reflexivity]. exfalso.
       destruct (Q4 Q3) as (_ & _ & _ & A4). destruct (A4 eq_refl) as (B1 & B2 & _).
       destruct (owner_serves s _ Hr (must_owner s _ B1 B2)) as (_ & Hin).
       apply isnil_true in En. rewrite En in Hin. contradiction.
     + injection H as <-. simpl hist. rewrite scan_cons. fold p. unfold spec_step. rewrite Hq.
-      apply Hclose; [reflexivity|]. try rewrite Ec in Q3; try rewrite Ec in Q4. simpl in Q3. rewrite Q3. simpl.
+      apply Hclose; [reflexivity| |exact Hnone]. try rewrite Ec in Q3; try rewrite Ec in Q4. simpl in Q3. rewrite Q3. simpl.
       destruct (q_must q) eqn:Em; [|reflexivity]. exfalso.
       destruct (Q4 Q3) as (_ & _ & _ & A4). destruct (A4 eq_refl) as (_ & _ & B3). discriminate.
     + injection H as <-. simpl hist. rewrite scan_cons. fold p. unfold spec_step. rewrite Hq.
-      apply Hclose; [reflexivity|]. try rewrite Ec in Q3; try rewrite Ec in Q4. simpl in Q3. rewrite Q3. simpl.
+      apply Hclose; [reflexivity| |exact Hnone]. try rewrite Ec in Q3; try rewrite Ec in Q4. simpl in Q3. rewrite Q3. simpl.
       destruct (q_must q) eqn:Em; [|reflexivity]. exfalso.
       destruct (Q4 Q3) as (_ & _ & _ & A4). destruct (A4 eq_refl) as (_ & _ & B3). discriminate.
     + injection H as <-. simpl hist. rewrite scan_cons. fold p. unfold spec_step. rewrite Hq.
-      apply Hclose; [reflexivity|]. try rewrite Ec in Q3; try rewrite Ec in Q4. simpl in Q3. rewrite Q3. simpl.
-      rewrite Q2, Nat.eqb_refl. simpl.
-      destruct (Q4 Q3) as (_ & _ & A3 & _). apply mem_In. apply A3. reflexivity.
+      apply Hclose; [reflexivity| |].
+      * try rewrite Ec in Q3; try rewrite Ec in Q4. simpl in Q3. rewrite Q3. simpl.
+        rewrite Q2, Nat.eqb_refl. simpl.
+        destruct (Q4 Q3) as (_ & _ & A3 & _). apply mem_In. apply A3. reflexivity.
+      * (* the marker of the configuration being started: its acceptors have been spawned *)
+        intros Hx. apply Bool.orb_true_iff in Hx as [Hx|Hx]; [apply Hu; exact Hx|].
+        rewrite Hp in Hx. destruct (pending s) as [n|] eqn:Epn; [|discriminate].
+        apply Nat.eqb_eq in Hx.
+        destruct (pending_new_ok s n Hinv Epn) as (Hn1 & Hn2). assert (Hcalls : sp_calls p = n) by lia.
+        assert (Hfr : fresh_ok s i) by (apply (Hfresh k c i E); rewrite Ec; reflexivity).
+        unfold fresh_ok, spawning, pending in *. destruct (rst s); try discriminate; try exact I;
+          injection Epn as <-; exfalso; apply Hfr; lia.
   - (* LObs *)
     injection H as <-. simpl hist. rewrite scan_cons. fold p. unfold spec_step.
     destruct (mem a (sp_addrs p) && pend_has p a) eqn:Esrv.
@@ -990,7 +1113,8 @@ Qed.
 Lemma rel_init a0 blocked : Rel (init a0 blocked) (scan a0 (hist (init a0 blocked))).
 Proof.
   unfold scan. simpl. constructor; simpl; unfold pending, addrs_of; simpl; auto.
-  intros a b [].
+  - intros a b [].
+  - discriminate.
 Qed.
 
 Lemma rel_run a0 ls : forall s s',
@@ -1007,7 +1131,7 @@ Theorem model_traces_satisfy_spec a0 blocked ls s :
 Proof.
   intros Hnd H.
   assert (Hr0 : reachable (init a0 blocked)) by (exists a0, blocked, []; auto).
-  destruct (rel_run a0 ls _ _ Hr0 (rel_init a0 blocked) H) as [Hok _ _ _ _ _ _].
+  destruct (rel_run a0 ls _ _ Hr0 (rel_init a0 blocked) H) as [Hok _ _ _ _ _ _ _].
   exact Hok.
 Qed.
 
